@@ -105,6 +105,7 @@ type pathState struct {
 	pinned  map[string]uint64
 	nQuick  int
 	yieldLog []int
+	clockEpoch int
 	poolChoice bool
 	poolReuse  int
 }
